@@ -61,6 +61,7 @@ CONSTANTS KindsM,  \* binding kinds enumerated at module level   (always contain
           Fams,    \* subset of {"scope", "rel"}
           Relax,   \* relaxations generated          (subset of AllRelax)
           Guard,   \* relaxations under which the property invariants are asserted
+          RootKinds, \* roots of attribute accesses that are not names: subset of {"call", "subscript", "str"}
           Emit     \* print one CASE line per finished case
 
 Nil == "nil"
@@ -87,7 +88,9 @@ Front(s) == SubSeq(s, 1, Len(s) - 1)
 \* names
 Generic == {"x"}
 ModNames == {"q", "pkg"}        \* names that only `import q` / `import pkg.sub.b` bind
-SubNames == {"a", "sub"}        \* submodule names: never bound explicitly (scope family)
+SubNames == {"a", "sub", "b"}   \* module names: never bound explicitly (scope family).  They are submodule names of some package
+                                \* and - `b` in pkg/sub/b.py, `sub` in pkg/sub/__init__.py - the enclosing module's OWN name
+                                \* (parent-name shortcut: `name == self.parent.name and not self.parent.is_module`)
 QNames == {"x", "A", "B"}       \* classes the library module q defines besides K
 
 \* binding kinds
@@ -373,6 +376,18 @@ RECURSIVE ImplChain(_)
 ImplChain(c) ==      \* canonical_path of the c-th ExprName of the chain: f"{self.parent.canonical_path}.{self.name}"
   IF c = 0 THEN impl.p ELSE ImplChain(c - 1) \o <<Suffix[c]>>
 
+\* ---- attributes of values (expressions.py _build_attribute) ------------------------------------
+\* `<root>.n` where the root is not a name: the site is `_g().n`, `_L[0].n`, `"s".n`.  _build_attribute gives the trailing
+\* ExprName the parent: the root ExprName (name root: ImplChain above), "str" (string constant), nothing otherwise.
+\* ExprName.canonical_path: parent None -> the name; parent a str -> f"{parent}.{name}".  The scope of the site is never
+\* consulted: an attribute of a runtime value is not a name reference (Python: LOAD_ATTR on the value).
+BuildAttributeParent(rk) == IF rk = "str" THEN "str" ELSE Nil
+ImplValueAttr(rk) == IF BuildAttributeParent(rk) = Nil THEN [k |-> "name", p |-> <<n>>]
+                     ELSE [k |-> "path", p |-> <<BuildAttributeParent(rk), n>>]
+\* reference: the attribute name of a value has no static binding -> unchanged; of a string literal: an attribute of builtins.str
+RefValueAttr(rk) == IF rk = "str" THEN [k |-> "path", p |-> <<"str", n>>] ELSE [k |-> "name", p |-> <<n>>]
+ValueAttributeUnchanged == (pc = "done") => \A rk \in RootKinds : ImplValueAttr(rk) = RefValueAttr(rk)
+
 \* ---- properties ----------------------------------------------------------------------------------
 Done == pc = "done"
 Unchanged == impl.k = "name" \/ impl = [k |-> "path", p |-> <<n>>]     \* the text of the name itself (e.g. `pkg` -> "pkg")
@@ -417,7 +432,8 @@ EmitCase ==
   (Emit /\ Done) =>
     PrintT(<<"CASE", ToJson([fam |-> fam, M |-> M, n |-> n, up1 |-> up1, up2 |-> up2, modb |-> modb, ab |-> ab, bb |-> bb,
                              fnb |-> fnb, inh |-> inh, zmod |-> ZMod, st |-> st, S |-> S, impl |-> impl, binder |-> binder,
-                             py |-> py, pyl |-> pyl, mvl |-> VerdictLate, just |-> just, suffix |-> Suffix, mv |-> Verdict, mve |-> VerdictEloc,
+                             py |-> py, pyl |-> pyl, mvl |-> VerdictLate, just |-> just, suffix |-> Suffix,
+                             va |-> [rk \in RootKinds |-> [impl |-> ImplValueAttr(rk), ref |-> RefValueAttr(rk)]], mv |-> Verdict, mve |-> VerdictEloc,
                              clean |-> InDom({}), exempt |-> Exempt, why |-> (IF Exempt THEN PyStmt(st).why ELSE ""),
                              stm |-> IF S = "A.init"
                                        THEN [M |-> StmtOf(modb, "M"), A |-> StmtOf(ab, "A"), B |-> StmtOf(bb, "B"), F |-> StmtOf(KindAt("fA"), "fA")]
